@@ -10,6 +10,9 @@ from . import core
 def unit_list():
     srcs = sorted(glob.glob(os.path.join(core.REPO, 'src', 'test', 'pegtl', '*.cpp'))) + \
         sorted(glob.glob(os.path.join(core.REPO, 'src', 'example', 'pegtl', '*.cpp')))
+    import re
+    flt = os.environ.get('VERIF_UNITS')      # debugging aid: restrict the thorough tier to the units matching a regular expression
+    if flt: srcs = [s for s in srcs if re.search(flt, s)]
     return [(s, []) for s in srcs]
 
 
@@ -18,9 +21,10 @@ def extract_all(R=None):
     units = unit_list()
     paths, errors = core.extract(units, allow_errors=True)
     good = [p for p in paths if os.path.exists(p) and os.path.getsize(p) > 0]
+    for p in good: core._REPO_UNITS[p] = True
     if R is not None:
         R.cov['repo_units'] = len(units); R.cov['repo_units_extracted'] = len(good)
-        if len(good) < 150:
+        if len(good) < 150 and not os.environ.get('VERIF_UNITS'):
             R.broke('only %d of %d repository units could be extracted (floor 150)' % (len(good), len(units)))
     return good
 
